@@ -107,10 +107,12 @@ Definition local_url (f : family) (e : entry) : option str :=
       end
   end.
 
-Definition link_url (f : family) (srvname : str) (e : entry) : option str :=
+(* dport: the port handed to geturl for an entry without a port of its own: the server's port in the
+   repaired code (/repo ee294ab), the constant 70 in the pinned code *)
+Definition link_url (f : family) (srvname : str) (dport : Z) (e : entry) : option str :=
   match url_tail (e_selector e) with
   | Some r => dot_plus_eol r                      (* None: AttributeError *)
-  | None => if is_local e then local_url f e else geturl srvname 70%Z e
+  | None => if is_local e then local_url f e else geturl srvname dport e
   end.
 
 (* ---------- HTTP ---------- *)
@@ -164,9 +166,9 @@ Definition http_row_gen (esc : bool) (icons : list (str * str)) (e : entry) (url
 Definition http_row := http_row_gen true.
 Definition http_row_pinned := http_row_gen false.
 
-Definition http_renderobjinfo_gen (esc : bool) (icons : list (str * str)) (srvname : str) (e : entry)
+Definition http_renderobjinfo_gen (esc : bool) (icons : list (str * str)) (srvname : str) (dport : Z) (e : entry)
   : option str :=
-  option_map (http_row_gen esc icons e) (link_url FHttp srvname e).
+  option_map (http_row_gen esc icons e) (link_url FHttp srvname dport e).
 Definition http_renderobjinfo := http_renderobjinfo_gen true.
 Definition http_renderobjinfo_pinned := http_renderobjinfo_gen false.
 
@@ -269,9 +271,9 @@ Definition wap_row_gen (esc : bool) (waptop : str) (st : wapst) (e : entry) (url
 Definition wap_row := wap_row_gen true.
 Definition wap_row_pinned := wap_row_gen false.
 
-Definition wap_renderobjinfo_gen (esc : bool) (waptop srvname : str) (st : wapst) (e : entry)
+Definition wap_renderobjinfo_gen (esc : bool) (waptop srvname : str) (dport : Z) (st : wapst) (e : entry)
   : option (str * wapst) :=
-  option_map (wap_row_gen esc waptop st e) (link_url FHttp srvname e).
+  option_map (wap_row_gen esc waptop st e) (link_url FHttp srvname dport e).
 Definition wap_renderobjinfo := wap_renderobjinfo_gen true.
 
 (* renderdirstart: the title is escaped once when it comes from the name and once
@@ -316,8 +318,8 @@ Definition gem_line (f : family) (e : entry) (url : str) (descr : str) : str :=
         end) ++ url ++ [32] ++ descr ++ [LFc].
 
 (* renderobjinfo: the URL is computed first, then the description *)
-Definition gem_renderobjinfo (f : family) (srvname : str) (e : entry) : option str :=
-  match link_url f srvname e with
+Definition gem_renderobjinfo (f : family) (srvname : str) (dport : Z) (e : entry) : option str :=
+  match link_url f srvname dport e with
   | None => None
   | Some url => option_map (gem_line f e url) (gem_description e)
   end.
@@ -394,17 +396,17 @@ Definition render_dir (p : lproto) (c : lcfg) (d : entry) (es : list entry) : op
       option_map fst (render_rows unit (stateless (gopher0_line (c_srvname c) (c_srvport c))) tt rows)
   | LHttp =>
       opt_app (http_dirstart (c_pagetopper c) (c_srvname c) (c_srvport c) d)
-        (opt_app (option_map fst (render_rows unit (stateless (http_renderobjinfo (c_icons c) (c_srvname c))) tt rows))
+        (opt_app (option_map fst (render_rows unit (stateless (http_renderobjinfo (c_icons c) (c_srvname c) (c_srvport c))) tt rows))
                  (http_dirend (c_srvname c) (c_srvport c) d))
   | LWap =>
       opt_app (Some (wap_dirstart d))
-        (opt_app (option_map fst (render_rows wapst (wap_renderobjinfo (c_waptop c) (c_srvname c)) WAP0 rows))
+        (opt_app (option_map fst (render_rows wapst (wap_renderobjinfo (c_waptop c) (c_srvname c) (c_srvport c)) WAP0 rows))
                  (Some wap_dirend))
   | LGemini =>
-      opt_app (option_map fst (render_rows unit (stateless (gem_renderobjinfo FGemini (c_srvname c))) tt rows))
+      opt_app (option_map fst (render_rows unit (stateless (gem_renderobjinfo FGemini (c_srvname c) (c_srvport c))) tt rows))
               (Some (gem_dirend (c_gem_footer c)))
   | LSpartan =>
-      opt_app (option_map fst (render_rows unit (stateless (gem_renderobjinfo FSpartan (c_srvname c))) tt rows))
+      opt_app (option_map fst (render_rows unit (stateless (gem_renderobjinfo FSpartan (c_srvname c) (c_srvport c))) tt rows))
               (Some (gem_dirend (c_sp_footer c)))
   end.
 
